@@ -114,7 +114,8 @@ def run(ctx):
         return
     # verification under faults of the key-derivation step (the 32 MiB scrypt work area can fail to allocate): whatever happens inside, a wrong password
     # is never reported as right - an exception is an acceptable answer, True is not
-    KDF = getattr(A, "Scrypt", None)
+    holder = A if hasattr(A, "Scrypt") else getattr(A, "scrypt", None)      # `from ... import Scrypt` or `from ... import scrypt`
+    KDF = getattr(holder, "Scrypt", None)
     if KDF is not None:
         good = A.Auth.hash_password(PW["a"])
         for nfail in (1, 2, 3, 8):
@@ -133,7 +134,7 @@ def run(ctx):
                             left[0] -= 1
                             raise exc("injected fault in the key derivation")
                         return KDF.derive(s, *a, **k)
-                A.Scrypt = Faulty
+                holder.Scrypt = Faulty
                 try:
                     for q in ("a_bit", "empty"):
                         left[0] = nfail
@@ -146,7 +147,7 @@ def run(ctx):
                             ctx.fail("verify_password(%s, hash of 'a') returns True when the key derivation fails %d time(s) with %s" % (q, nfail, exc.__name__),
                                      dict(wrong_password=q, faults=nfail, exception=exc.__name__))
                 finally:
-                    A.Scrypt = KDF
+                    holder.Scrypt = KDF
     wd = T.workdir("c19")
     try:
         inp = os.path.join(wd, "ops.json")
